@@ -18,13 +18,22 @@ PROPS = {
 
 
 def setup():
+    """Build everything from files on disk. The whole Coq development is built with `make -k`
+    (files that are still being worked on and are not in the cone of a claimed property must not
+    stop the build); what has to succeed: the cone of every registered property, the extraction,
+    the driver and the harness."""
     t0 = time.time()
     src2v.regenerate(sorted(src2v.GENERATORS))
     core.coq_makefile()
-    ok, out, failing = core.coq_make([])
-    core.log('coq build', 'ok' if ok else 'FAILED at %s' % failing)
-    if not ok:
-        print(out[-3000:])
+    rc, out = core.run(['make', '-k', '-j%d' % core.NCPU], cwd=core.COQ, timeout=3000)
+    core.log('coq build (make -k)', 'ok' if rc == 0 else 'some files failed (checked per property below)')
+    ok = True
+    for prop, (pfile, gens, _) in sorted(PROPS.items()):
+        okp, outp, failing = core.coq_make([pfile + 'o'])
+        if not okp:
+            ok = False
+            core.log('property cone FAILED:', prop, failing)
+            print(outp[-1500:])
     ok2, msg = core.build_model_driver()
     core.log('driver:', msg if ok2 else 'FAILED ' + msg)
     ok3, msg = core.build_harness()
